@@ -134,6 +134,10 @@ func ips(bs [][]byte) []net.IP {
 // ToLibOpt builds one library option.
 func ToLibOpt(o *refv6.Opt) dhcpv6.Option {
 	x := toLibOptTyped(o)
+	if reprMode&16 != 0 && o.Code == 9 {
+		// (mode 16: the relay message option itself is held generic — only for checks that do not need the inner message)
+		return &dhcpv6.OptionGeneric{OptionCode: x.Code(), OptionData: x.ToBytes()}
+	}
 	if reprMode&4 != 0 && o.Typ != "opaque" && o.Typ != "relaymsg" && o.Code != 9 {
 		reprCount++
 		if _, generic := x.(*dhcpv6.OptionGeneric); !generic && reprCount%2 == 0 {
